@@ -29,6 +29,25 @@ Theorem T01f_judge_sound : forall v y relbits x,
 Proof. exact judge_agree_sound. Qed.
 Print Assumptions T01f_judge_sound.
 
+From BV Require Import Model.PhiI Model.PhiDef Proofs.PhiP.
+
+(* the interval extension of the normal CDF used by the streams is PROVED to enclose the concrete
+   function Phi_def x = 1/2 + RInt npdf 0 x, npdf t = exp(-t^2/2)/sqrt(2 pi) (Model/PhiDef.v) ... *)
+Theorem T01f_PhiI_series_correct : forall i r,
+  contains (I.convert i) (Xreal r) -> contains (I.convert (PhiI_series i)) (Xreal (Phi_def r)).
+Proof. exact PhiI_series_correct. Qed.
+Print Assumptions T01f_PhiI_series_correct.
+
+(* ... so the oracle the streams run is sound with no hypothesis left on the normal CDF *)
+Theorem T01f_evalI_sound_concrete : forall (e : expr) (d : denv),
+  sound (evalI PhiI_series e d) (evalX Phi_def e (env_of d)).
+Proof. exact (evalI_sound Phi_def PhiI_series PhiI_series_correct). Qed.
+Print Assumptions T01f_evalI_sound_concrete.
+
+(* non-vacuity: the proved enclosure is informative (at 0 it pins Phi_def 0 = 1/2 to 2^-80) *)
+Example T01f_PhiI_series_at_0 : in_tol (PhiI_series (I.fromZ prec 0)) (1, -1)%Z (-80) = true.
+Proof. exact PhiI_series_at_0. Qed.
+
 From BV Require Import Model.IdMgr Model.Sig Proofs.SigP Proofs.SigEvalP.
 
 (* T01a. For every Python object graph (labels = object identity; any sharing) whose
